@@ -108,13 +108,43 @@ class Check:
         if getattr(self, '_pkgstate_done', False) or not self.obls:
             return
         self._pkgstate_done = True
-        if any(o['id'].endswith('.pkgstate') for o in self.obls):
-            return
+        own_done = any(o['id'].endswith('.pkgstate') for o in self.obls)
+        api = None
+        if self.pid not in ('C10', 'C15', 'C16', 'C12'):   # C10/C15/C16 run the full call table themselves; C12 is the layer below the API
+            try:
+                from props import pkgstate as _ps
+                api = _ps.analysis()
+            except (EngineError, ValueError, KeyError, OSError) as e:
+                self.notes.append('package-state analysis of the API not available: %s' % str(e)[:200])
+        if api is not None:
+            self.extra['package_state_analysis'] = {k: api[k] for k in ('key', 'calls', 'paths', 'secs', 'at', 'reused', 'errors')}
+            for f_ in api['findings']:
+                self.pkgwrites.append(('api', 0, '%s: %s' % tuple(f_), ''))
+            self.ground(self.pid + '.pkgstate.api', 'no exported function (%d call configurations, %d paths; %s) writes package-level state or returns package-level storage'
+                        % (api['calls'], api['paths'], 'result of the identical tree reused' if api['reused'] else 'computed in this run'), not api['findings'], str(api['findings'][:3]))
         ok = not self.pkgwrites
-        self.ground(self.pid + '.pkgstate', 'no encoded path of any function executed for this check writes package-level state (%d runs)' % len(self.extra.get('_runs', [])), ok, str(self.pkgwrites[:3]))
-        if ok or self.violations or self.inconclusive or self.pid in ('C12', 'C17'):
+        if not own_done:
+            self.ground(self.pid + '.pkgstate', 'no encoded path of any function executed for this check writes package-level state (%d runs)' % len(self.extra.get('_runs', [])), ok, str(self.pkgwrites[:3]))
+        if ok or self.violations or self.inconclusive:
             return
         from props import fallback
+        if self.pid == 'C17':
+            from props import C17
+            okm, outm = C17.plain_main()
+            path = self.save_replay({'property': 'C17', 'kind': 'plain-main', 'program': C17.MAIN, 'reason': 'package-level state is written: %s' % (self.pkgwrites[:3],)})
+            if not okm:
+                self.violation('pkgstate', 'a hashing call changes package-level state (%s) and a later call fails: %s' % (self.pkgwrites[0][2:], outm.strip().splitlines()[-1:]), path)
+            else:
+                self.inconclusive.append('package-level state is written (%s) but the plain main programs run' % (self.pkgwrites[0][2:],))
+            return
+        if self.pid == 'C12':
+            path = self.save_replay({'property': 'C12', 'pkg': 'field', 'cases': fallback.cases_for('C12', self.seed), 'reason': 'package-level state is written: %s' % (self.pkgwrites[:3],)})
+            ok2, out = go_test(path, pkg='field', timeout=900)
+            if not ok2 and 'MISMATCH' in out:
+                self.violation('pkgstate', 'a field-layer call changes or hands out package-level state (%s): %s' % (self.pkgwrites[0][2:], [l.strip() for l in out.splitlines() if 'MISMATCH' in l][:1]), path)
+            else:
+                self.inconclusive.append('package-level state is written (%s) but the field battery passes' % (self.pkgwrites[0][2:],))
+            return
         cases = [{'kind': 'hostile-prelude'}, {'kind': 'sanity'}] + fallback.cases_for(self.pid, self.seed)
         path = self.save_replay({'property': self.pid, 'cases': cases, 'reason': 'package-level state is written: %s' % (self.pkgwrites[:3],)})
         ok2, out = go_test(path, race=(self.pid == 'C16'), timeout=900)
